@@ -146,7 +146,18 @@ def build_scaffold(sc):
 
 
 def build_scaffolds(scs):
-    return [build_scaffold(s) for s in scs]
+    """The rows are handed to each Scaffold in ONE working list that is cleared and refilled for the next
+    scaffold, as a caller reading a file scaffold by scaffold would: a Scaffold
+    holds its own rows, not the caller's list."""
+    from tola.assembly.scaffold import Scaffold
+
+    buf = []
+    out = []
+    for s in scs:
+        buf.clear()
+        buf.extend(build_row(r) for r in s[1])
+        out.append(Scaffold(s[0], buf))
+    return out
 
 
 def rows_with_pos(rows):
